@@ -17,7 +17,7 @@ import (
 )
 
 type vxC05Sym struct {
-	Kind  string `json:"kind"`  // cycle | mode | pwm | pwmrel | mid
+	Kind  string `json:"kind"`  // cycle | noread (cycle during which every read of the PWM file fails) | mode | pwm | pwmrel | mid
 	Curve int    `json:"curve"` // cycle / mid
 	Val   int    `json:"val"`   // mode value / pwm value / relative offset
 	Op    int    `json:"op"`    // mid: inject before the op-th file operation of the cycle
@@ -28,6 +28,8 @@ func (s vxC05Sym) String() string {
 	switch s.Kind {
 	case "cycle":
 		return fmt.Sprintf("cycle(curve=%d)", s.Curve)
+	case "noread":
+		return fmt.Sprintf("cycle(curve=%d) while reads of the PWM file fail", s.Curve)
 	case "mode":
 		return fmt.Sprintf("3rd-party mode:=%d", s.Val)
 	case "pwm":
@@ -116,6 +118,15 @@ func vxC05Apply(fx *vxFix, h *vxC05Hist, s vxC05Sym, trail func() []vxC05Sym) (v
 	unexpBefore := fx.ctl.stats.UnexpectedPwmValueCount
 	mid := s.Kind == "mid"
 	injected := false
+	if s.Kind == "noread" {
+		pwmPath := fx.dev.Pwm
+		fx.fs.Intercept = func(kind, path string, value int) *env.Result {
+			if kind == "read" && path == pwmPath {
+				return &env.Result{Val: -1, Err: env.ErrInval(path)}
+			}
+			return nil
+		}
+	}
 	if mid {
 		n := 0
 		fx.fs.Intercept = func(kind, path string, value int) *env.Result {
@@ -161,8 +172,8 @@ func vxC05Apply(fx *vxFix, h *vxC05Hist, s vxC05Sym, trail func() []vxC05Sym) (v
 	if !vxIn(o.DevPwm, want) {
 		bad("C05 fan not at the value the current request dictates after a complete cycle", fmt.Sprintf("request %d -> expected device value %v, device shows %d", o.Req, want, o.DevPwm))
 	}
-	// counting
-	if haveExp && !h.Dirty {
+	// counting (fan2go cannot see the value while its reads fail: nothing is demanded of the counter in such a cycle)
+	if haveExp && !h.Dirty && s.Kind != "noread" {
 		changed := !vxIn(devBefore, expBefore)
 		switch {
 		case changed && delta != 1:
@@ -185,6 +196,8 @@ func vxC05Alphabet(cfg vxCfg) []vxC05Sym {
 	for _, m := range []int{0, 2, 3} {
 		a = append(a, vxC05Sym{Kind: "mode", Val: m})
 	}
+	// the PWM file cannot be read during the cycle (flaky bus): the interference must still be undone (writes succeed)
+	a = append(a, vxC05Sym{Kind: "noread", Curve: 100}, vxC05Sym{Kind: "noread", Curve: 255})
 	pid := vxIsPid(cfg.Algo)
 	if pid || !mc.Thorough() {
 		for _, p := range []int{0, 1, 64, 128, 200, 255} {
